@@ -11,6 +11,8 @@ What this check does: identity checks on the real builder; PAIRED implementation
   A: a scenario in which the silent node x does nothing,
   B: the same scenario (the other nodes replay A's program table) where x additionally issues a random
      sequence of node-scoped requests from its callbacks,
+in a minority of scenarios with many nodes (two-digit identifiers) and free-form timer names (digits first or
+last), where distinct (node, name) pairs are written with the same characters,
 the projections on the nodes other than x compared with each other (the property) and each run with
 its model run (the correspondence).
 """
@@ -32,6 +34,34 @@ X_PROFILE = {
     "maxReq": 4, "budget": 45, "pTelemetry": 0.3, "pGuarded": 0.1, "pFinish": 0.5,
 }
 NODE_SCOPED = ("setTimer", "cancelTimer", "goto", "gotoGeo", "setSpeed", "setRange")
+
+# Timer names are free-form strings chosen by the protocol author ("associate it with some serialized
+# data"): nothing says they are letters. Fragments used to build name alphabets in which names begin or
+# end with digits, contain separators, or extend one another.
+FREE_FRAGMENTS = ["0", "1", "2", "10", "-", ":", "_", " ", ".", "/"]
+
+
+def concat_twins(n):
+    """pairs of DISTINCT node ids (lo, hi) < n whose decimal numerals extend one another: str(hi) is
+    str(lo) followed by `rest` ("pre") or `rest` followed by str(lo) ("post"). Only such pairs allow
+    (id, name) and (id', name') with different ids to be written with the same characters."""
+    out = []
+    for hi in range(n):
+        for lo in range(n):
+            if lo == hi:
+                continue
+            a, b = str(lo), str(hi)
+            if len(b) > len(a) and b.startswith(a):
+                out.append(("pre", lo, hi, b[len(a):]))
+            if len(b) > len(a) and b.endswith(a):
+                out.append(("post", lo, hi, b[:len(b) - len(a)]))
+    return out
+
+
+def same_characters(n1, name1, n2, name2):
+    """two different (node, timer name) pairs that read the same when id and name are written one after
+    the other (in either order): distinct timers of distinct nodes all the same"""
+    return (n1, name1) != (n2, name2) and (f"{n1}{name1}" == f"{n2}{name2}" or f"{name1}{n1}" == f"{name2}{n2}")
 
 
 class MaskX:
@@ -101,18 +131,23 @@ class C13(SimCheck):
                   "positions are equal. The literal statement fails in the model exactly as "
                   "in the code at the iteration budget and at the clock read in finish (witness theorem, finding F13). Tied "
                   "to the code by paired executions, each also compared with its model run.")
-    rule = ("2-5 nodes, timers and communication on, mobility in most scenarios, no iteration limit, blocking start; run A: "
+    rule = ("2-5 nodes (about one scenario in eight: 11-14 nodes, i.e. two-digit identifiers), timers and communication on, "
+            "mobility in most scenarios, no iteration limit, blocking start; timer names a/b/c, in about one scenario in five "
+            "free-form names (beginning or ending with digits, with separators, one name extending another; with >= 11 nodes "
+            "the alphabet contains N and rest+N / N+rest for two identifiers lo, hi = lo·rest or rest·lo, so that different "
+            "(node, name) pairs are spelt with the same characters, and x is usually one of the two); run A: "
             "the silent node x does nothing; run B: the other nodes replay A's program table and x issues random node-scoped "
             "requests (timers under the names the others use, cancels, goto, setSpeed, setRange) from its "
             "initialize/timer/packet/telemetry/finish callbacks (the others issue nothing inside finish, whose time is the "
             "global clock); identity checks on every run; non-trivial = x cancelled (accepted) a "
-            "timer name that another node had pending at that moment, and changed its range or target, and the other "
+            "timer name that another node had pending at that moment (or whose spelling together with the identifier "
+            "coincides with that of another node's pending timer), and changed its range or target, and the other "
             "nodes made >= 4 callbacks beyond initialize/finish")
     assumptions = ["x never sends or broadcasts (silent); x uses no shared random generator and no camera",
                    "no iteration limit; the time read inside finish is excluded (finding F13: both are global by design)",
                    "timer identifiers are never observable (the code's global counter vs the model's per-node counters)"]
     quick_n = 600
-    thorough_n = 20000
+    thorough_n = 18000      # scenarios with 11-14 nodes cost several small ones: keeps the tier under its 10 min
     force_cfg = {"hasTimer": True, "hasComm": True}
     drive = {"mode": "start"}
     profile = {"w": {"setTimer": 5, "cancelTimer": 1.5, "send": 2.5, "broadcast": 1.5, "goto": 1, "setSpeed": 0.3,
@@ -137,6 +172,14 @@ class C13(SimCheck):
             cfg["duration"] = r.choice([2048, 4096])
         scn["x"] = r.randrange(cfg["nNodes"])
         scn["xProfile"] = dict(X_PROFILE)
+        u = r.random()
+        if u < self.p_crowd:
+            self.crowd(r, scn)
+        elif u < self.p_crowd + self.p_freeform:
+            # few nodes, free-form timer names (digits first/last, separators, one name extending another)
+            base = r.choice(simgen.NAMES)
+            pool = [base] + [f + base for f in FREE_FRAGMENTS] + [base + f for f in FREE_FRAGMENTS] + ["0", "1", "10"]
+            scn["profile"]["names"] = [base] + r.sample(pool[1:], 2)
         # requests made before the start: x stays silent (no messages) there too
         rows = []
         for row in scn.get("prestart", []):
@@ -146,6 +189,34 @@ class C13(SimCheck):
                 rows.append(row)
         if "prestart" in scn:
             scn["prestart"] = rows
+        return scn
+
+    p_crowd = 0.12
+    p_freeform = 0.10
+
+    def crowd(self, r, scn):
+        """many nodes (two-digit identifiers) and a timer-name alphabet closed under "the rest of the longer
+        identifier": with ids lo and hi = lo·rest (or rest·lo) the names N and rest·N (N·rest) are both in
+        use, so that different (node, name) pairs are spelt with the same characters. Identity is the pair,
+        not its spelling: whatever x does with ITS timer of one name must leave the other node's timer of
+        the other name alone. x is usually one of such a pair, everybody uses the whole alphabet."""
+        cfg = scn["cfg"]
+        n = r.choice([11, 11, 12, 13, 14])
+        cfg["nNodes"] = n
+        cfg["initPos"] = [[fbits(c) for c in simgen.lattice(r)] for _ in range(n)]
+        base = r.choice(simgen.NAMES)
+        kind, lo, hi, rest = r.choice(concat_twins(n))
+        other = rest + base if kind == "pre" else base + rest
+        # the mirror-image spelling as third name (the alphabet keeps its usual size of three)
+        third = base + rest if kind == "pre" else rest + base
+        scn["profile"]["names"] = [base, other, third]
+        scn["x"] = r.choice([lo, hi]) if r.random() < 0.8 else r.randrange(n)
+        scn["crowd"] = {"kind": kind, "lo": lo, "hi": hi, "rest": rest}
+        # the reacting-callback budget is shared by all nodes: keep the per-node share of small scenarios
+        scn["profile"]["budget"] = self.profile["budget"] + 4 * n
+        # many telemetry streams cost time and add nothing here: at most a short mobile phase
+        if cfg["hasMob"] and cfg["duration"] is not None and cfg["duration"] > 4096:
+            cfg["duration"] = 4096
         return scn
 
     def generate(self, seed, tier):
@@ -275,13 +346,13 @@ class C13(SimCheck):
                               f"{json.dumps(lb[i])}: it is the time of the last event of ANY node"))
         return fails
 
-    def nontrivial(self, case, impl):
-        if case.get("role", "A") != "A" or impl.get("crash"):
-            return False
+    def coverage(self, case, impl):
+        """-> (x cancelled a name another node had pending, x cancelled a name while another node had a
+        pending timer whose (id, name) is spelt with the same characters, x moved / changed its range)"""
         x = case["x"]
         res_b = impl["pair"]["B"]
         pending = {}            # (node, name) -> list of due times
-        cancel_hit, moved = False, False
+        cancel_hit, spelling_hit, moved = False, False, False
         for c in parse(res_b["trace"]):
             if c["kind"] == "timer":
                 due = pending.get((c["n"], c["key"]), [])
@@ -293,13 +364,24 @@ class C13(SimCheck):
                 if req[0] == "setTimer":
                     pending.setdefault((c["n"], req[1]), []).append(req[2])
                 elif req[0] == "cancelTimer":
-                    if c["n"] == x and any(v for (m, name), v in pending.items() if m != x and name == req[1]):
-                        cancel_hit = True
+                    if c["n"] == x:
+                        for (m, name), v in pending.items():
+                            if m != x and v and name == req[1]:
+                                cancel_hit = True
+                            if m != x and v and same_characters(x, req[1], m, name):
+                                spelling_hit = True
                     pending[(c["n"], req[1])] = []
                 elif c["n"] == x and req[0] in ("goto", "gotoGeo", "setRange"):
                     moved = True
+        return cancel_hit, spelling_hit, moved
+
+    def nontrivial(self, case, impl):
+        if case.get("role", "A") != "A" or impl.get("crash"):
+            return False
+        x = case["x"]
+        cancel_hit, spelling_hit, moved = self.coverage(case, impl)
         others = [c for c in parse(impl["pair"]["A"]["trace"]) if c["n"] != x and c["kind"] not in ("initialize", "finish")]
-        return cancel_hit and moved and len(others) >= 4
+        return (cancel_hit or spelling_hit) and moved and len(others) >= 4
 
     def key(self, case, impl):
         return json.dumps([project(impl["pair"]["B"], -1)], sort_keys=True, default=str)
@@ -323,6 +405,13 @@ class C13(SimCheck):
                     k = "x_req_" + e[2][0] + ("" if e[3] else "_refused")
                     acc[k] = acc.get(k, 0) + 1
             acc["others_entries"] = acc.get("others_entries", 0) + len(project(impl["pair"]["A"], x))
+            if not impl.get("crash"):
+                cancel_hit, spelling_hit, _ = self.coverage(case, impl)
+                n = case["cfg"]["nNodes"]
+                acc["pairs_ge11_nodes"] = acc.get("pairs_ge11_nodes", 0) + (n >= 11)
+                acc["pairs_freeform_names"] = acc.get("pairs_freeform_names", 0) + ("names" in (case.get("profile") or {}))
+                acc["x_cancel_hits_same_name_pending_elsewhere"] = acc.get("x_cancel_hits_same_name_pending_elsewhere", 0) + cancel_hit
+                acc["x_cancel_hits_same_spelling_pending_elsewhere"] = acc.get("x_cancel_hits_same_spelling_pending_elsewhere", 0) + spelling_hit
 
     # -- shrinking: freeze both programs, then drop requests --------------------------------
     def shrink(self, case, still_fails):
